@@ -4,7 +4,7 @@ from dataclasses import dataclass
 from typing import TYPE_CHECKING, List, runtime_checkable
 from xml.etree import ElementTree
 
-from .element import IdentifiableElement, NamedElement
+from .element import IdentifiableElement
 from .nameditemlist import NamedItemList
 from .odxlink import OdxDocFragment
 from .utils import dataclass_fields_asdict
@@ -27,6 +27,6 @@ class VariableGroup(IdentifiableElement):
     @staticmethod
     def from_et(et_element: ElementTree.Element,
                 doc_frags: List[OdxDocFragment]) -> "VariableGroup":
-        kwargs = dataclass_fields_asdict(NamedElement.from_et(et_element, doc_frags))
+        kwargs = dataclass_fields_asdict(IdentifiableElement.from_et(et_element, doc_frags))
 
         return VariableGroup(**kwargs)
